@@ -56,7 +56,55 @@ def run_partial_case(case):
   return {'out': [], 'facts': facts}
 
 
+# under dynamic registration the constructor of a class can be named as an attribute (`mod.Cls.__init__.param`): the
+# lists the class was registered with guard it all the same - a finite table on the real code
+INIT_CASES = [{'dom': 'gin', '_kind': 'init_lists', 'lists': ls, 'first': first, 'ops': []}
+              for ls in ('deny', 'allow') for first in ('init', 'class', 'method')]
+
+
+def run_init_case(case):
+  import sys
+  import types
+  import core
+  gin = core.fresh_gin()
+  mod = types.ModuleType('c11_vault_mod')
+  sys.modules['c11_vault_mod'] = mod
+  exec('class Vault:\n  def __init__(self, label="l", secret="original"):\n    self.label, self.secret = label, secret\n'  # pylint: disable=exec-used
+       '  def open(self, code=0):\n    return code\n', mod.__dict__)
+  mod.Vault.__module__ = 'c11_vault_mod'
+  for fn in (mod.Vault.__init__, mod.Vault.open):
+    fn.__module__ = 'c11_vault_mod'
+  if case['lists'] == 'deny':
+    gin.register(mod.Vault, denylist=['secret'])
+  else:
+    gin.register(mod.Vault, allowlist=['label'])
+  dr = 'from __gin__ import dynamic_registration\nimport c11_vault_mod\n'
+  facts = {}
+  try:
+    if case['first'] == 'class':
+      gin.parse_config(dr + 'c11_vault_mod.Vault.label = "first"\n')
+    elif case['first'] == 'method':
+      gin.parse_config(dr + 'c11_vault_mod.Vault.open.code = 3\n')
+    before = {k: dict(v) for k, v in gin.config._CONFIG.items()}  # pylint: disable=protected-access
+    try:
+      gin.parse_config(dr + 'c11_vault_mod.Vault.__init__.secret = "INJECTED"\n')
+      facts['excluded'] = 'accepted'
+    except ValueError:
+      facts['excluded'] = 'ValueError'
+    facts['store_unchanged'] = {k: dict(v) for k, v in gin.config._CONFIG.items()} == before  # pylint: disable=protected-access
+    gin.parse_config(dr + 'c11_vault_mod.Vault.__init__.label = "through init"\n')
+    inst = gin.get_configurable(mod.Vault)()
+    facts['instance'] = [inst.label, inst.secret]
+  except Exception as e:  # pylint: disable=broad-except
+    facts['error'] = f'{type(e).__name__}: {e}'[:300]
+  finally:
+    sys.modules.pop('c11_vault_mod', None)
+  return {'out': [], 'facts': facts}
+
+
 def run_impl(case):
+  if case.get('_kind') == 'init_lists':
+    return run_init_case(case)
   if case.get('_kind') == 'partial':
     return run_partial_case(case)
   if _dyn(case):
@@ -73,7 +121,7 @@ def to_driver(case, impl):
 
 
 def compare(case, impl, model):
-  if case.get('_kind') == 'partial':
+  if case.get('_kind') in ('partial', 'init_lists'):
     return None
   if _dyn(case):
     from props import c19
@@ -82,8 +130,8 @@ def compare(case, impl, model):
 
 
 def tally(stats, case, impl):
-  if case.get('_kind') == 'partial':
-    stats['partial_cases'] = stats.get('partial_cases', 0) + 1
+  if case.get('_kind') in ('partial', 'init_lists'):
+    stats[case['_kind'] + '_cases'] = stats.get(case['_kind'] + '_cases', 0) + 1
     return
   if _dyn(case):
     stats['dynamic_registration_cases'] = stats.get('dynamic_registration_cases', 0) + 1
@@ -180,6 +228,7 @@ def gen_case(rng):
 
 def gen_cases(rng, tier, boost=1):
   yield from PARTIAL_CASES
+  yield from INIT_CASES
   n = (800 if tier == 'quick' else 20000) * boost
   for _ in range(n):
     yield gen_case(rng)
@@ -197,6 +246,14 @@ def gen_cases(rng, tier, boost=1):
 
 
 def oracle(case, impl):
+  if case.get('_kind') == 'init_lists':
+    f = impl['facts']
+    # (a binding on the class itself reaches the constructor as a caller's value and so wins over one on `Cls.__init__`)
+    want = ['first' if case['first'] == 'class' else 'through init', 'original']
+    if 'error' in f or f.get('excluded') != 'ValueError' or not f.get('store_unchanged') or f.get('instance') != want:
+      return (f'a class registered with a {case["lists"]} list, its constructor named as `Cls.__init__` under dynamic registration '
+              f'(first statement: {case["first"]}): {f}')
+    return None
   if case.get('_kind') == 'partial':
     f = impl['facts']
     want_consumed = 'ValueError' if case['by'] == 'positional' else 'accepted'
@@ -215,7 +272,7 @@ def oracle(case, impl):
 
 
 def nontrivial(case, impl):
-  if case.get('_kind') == 'partial':
+  if case.get('_kind') in ('partial', 'init_lists'):
     return True
   if _dyn(case):
     return impl.get('err') == 'ValueError' or bool(impl.get('bindings'))
@@ -230,7 +287,7 @@ def nontrivial(case, impl):
 
 
 def shrink(case):
-  if case.get('_kind') == 'partial':
+  if case.get('_kind') in ('partial', 'init_lists'):
     return
   if _dyn(case):
     from props import c19
